@@ -156,6 +156,7 @@ func GenEngineScript(r *Rng, o EngineGenOpts, hist map[string]int) []string {
 			// merge, perhaps more writes, then the adopting restart and a second restart
 			hist["op_merge_cycle"]++
 			add("merge")
+			add("hintcheck")
 			add("dump")
 			add("files")
 			for j := r.Intn(4); j > 0; j-- {
@@ -191,12 +192,20 @@ func GenEngineScript(r *Rng, o EngineGenOpts, hist map[string]int) []string {
 				add("open %s", c)
 				inspect()
 				add("files")
+				// the index built through the hint file: position and size of every key
+				for _, k := range engKeys {
+					add("pos %s", k)
+				}
 				if r.Chance(1, 2) {
 					add("close")
 					c = genCfg(r, o, hist)
 					add("open %s", c)
 					inspect()
 					add("files")
+					// ... and the index built by scanning the same files
+					for _, k := range engKeys {
+						add("pos %s", k)
+					}
 				}
 			}
 			continue
@@ -257,6 +266,7 @@ func GenEngineScript(r *Rng, o EngineGenOpts, hist map[string]int) []string {
 		case x < 90 && o.Merges:
 			hist["op_merge"]++
 			add("merge")
+			add("hintcheck")
 			add("dump")
 			add("files")
 			add("stat")
